@@ -143,7 +143,7 @@ def _unesc(s):
 
 
 def _find_anchor(text, m, arg, what):
-    mo = re.match(r'"((?:[^"\\]|\\.)*)"\s*(#\d+)?\s*$', arg)
+    mo = re.match(r'"((?:[^"\\]|\\.)*)"\s*(#\d+|#last)?\s*$', arg)
     if not mo:
         raise ExtractError('bad anchor syntax: %s' % arg)
     anchor = _unesc(mo.group(1))
@@ -155,6 +155,8 @@ def _find_anchor(text, m, arg, what):
         j = text.find(anchor, j + 1)
     if not pos:
         raise ExtractError('anchor lost in %s: "%s"' % (what, anchor))
+    if occ == '#last':
+        return pos[-1]
     if occ:
         k = int(occ[1:])
         if k > len(pos):
